@@ -38,6 +38,8 @@ pub fn queries_to_points(queries: &[Felt], stark_domains: &StarkDomains) -> Vec<
     let shift = Felt::TWO.pow_felt(&(MAX_DOMAIN_SIZE - stark_domains.log_eval_domain_size));
 
     for query in queries {
+        #[cfg(swiftness_verif)]
+        swiftness_transcript::verif::tick("stark.query_point", 1);
         let index: u64 = (query * shift).to_bigint().try_into().unwrap();
         points.push(FIELD_GENERATOR * stark_domains.eval_generator.pow(index.reverse_bits()))
     }
